@@ -257,3 +257,21 @@ def _doctype_body(hasp, hass, sq, rawp, raws):
     def norm(x):
         return x if x else None
     return len(got) == 2 and got[0][0] == "Doctype" and (got[0][1], norm(got[0][2]), norm(got[0][3]), got[0][4]) == (name, norm(pub), norm(sysid), False)
+
+
+RFRAG = ["&", "lt", "gt", "amp", ";", "#", "1", "x", "colon", "a", " ", "=", "no", "t", "i"]
+def attribute_refs(ti: int, n: int, f0: int, f1: int, f2: int, f3: int, qmode: int, qchar: int, b3: bool, b8: bool) -> bool:
+    """
+    pre: ti == 0 and 0 <= n <= P("nfrag", 4) and 0 <= f0 < len(RFRAG) and 0 <= f1 < len(RFRAG) and 0 <= f2 < len(RFRAG) and 0 <= f3 < len(RFRAG) and 0 <= qmode <= 2 and 0 <= qchar <= 1
+    pre: (n >= 4 or f3 == 0) and (n >= 3 or f2 == 0) and (n >= 2 or f1 == 0) and (n >= 1 or f0 == 0)
+    pre: P("f0", None) is None or f0 == P("f0", None)
+    post: _
+    """
+    tag, ns, typ = TAGS[pick(len(TAGS), ti)]
+    v = "".join(RFRAG[pick(len(RFRAG), f)] for f in (f0, f1, f2, f3)[:pick(5, n)])
+    opts = _opts(pick(3, qmode), pick(2, qchar), [False, False, True, bool(b3), False, True, False, True, bool(b8)])
+    with untraced():
+        out, errors = _ser([_start(tag, ns, {(None, "title"): v}, typ)], opts)
+        if errors:
+            return True
+        return R1.tokenize(_preprocess(out), "data", None, False) == [("StartTag", tag, [["title", v]], False), ("EOF",)]
